@@ -49,8 +49,13 @@ def signatures(trace_line, verdict, relevant):
                 out.append((f"oracle:{p}:{kind}{tail}", p))
         return out
     if verdict.startswith("FAIL model"):
-        # a model failure line may carry oracle results after "ORACLE"
-        return [(f"model:{kind}{tail}", "model")]
+        # the line may carry the oracle's verdict on the implementation's output after "ORACLE"
+        out = [(f"model:{kind}{tail}", "model")]
+        if " ORACLE " in verdict:
+            for p in sorted(set(verdict.rsplit(" ORACLE ", 1)[1].split())):
+                if relevant is None or p in relevant:
+                    out.append((f"oracle:{p}:{kind}{tail}", p))
+        return out
     if verdict.startswith("bad-op"):
         return [(f"badop:{kind}", "bad-op")]
     return []
@@ -96,8 +101,13 @@ def run_pure(ctx, set_name, n, relevant, extra_kinds=()):
                 continue
             runs.append(tr)
     tr = ctx.work / f"pure-{set_name}.trace"
-    r = vlib.run([vlib.hbin("pure"), "--seed", str(ctx.seed), "--n", str(n), "--tier", ctx.tier,
-                  "--out", str(tr), f"set={set_name}"], timeout=6 * 3600)
+    import subprocess
+    try:
+        r = vlib.run([vlib.hbin("pure"), "--seed", str(ctx.seed), "--n", str(n), "--tier", ctx.tier,
+                      "--out", str(tr), f"set={set_name}"], timeout=900 if ctx.tier == "quick" else 4 * 3600)
+    except subprocess.TimeoutExpired:
+        class R: returncode = 1; stdout = "harness timed out (a case does not terminate)"
+        r = R()
     if r.returncode != 0:
         ctx.log(f"harness pure failed: {r.stdout[-3000:]}")
         vlib.report_violation(ctx, "harness-crash", {"stream": "pure", "set": set_name, "output": r.stdout[-3000:]},
@@ -136,8 +146,8 @@ def run_pure(ctx, set_name, n, relevant, extra_kinds=()):
                         seen_sigs[sig] += 1
                         continue
                     seen_sigs[sig] = 1
-                    kind = ("implementation-vs-oracle" if v.startswith("FAIL oracle")
-                            else "model-vs-implementation" if v.startswith("FAIL model") else "bad-op")
+                    kind = ("implementation-vs-oracle" if sig.startswith("oracle:")
+                            else "model-vs-implementation" if sig.startswith("model:") else "bad-op")
                     vlib.report_violation(ctx, kind, {
                         "stream": "pure", "harness": "pure", "case": case,
                         "ops": [vlib.strip_obs(t)],
